@@ -2,6 +2,7 @@ package config
 
 import (
 	"fmt"
+	"math"
 	"regexp"
 	"strconv"
 	"strings"
@@ -500,6 +501,11 @@ func tryConvertToFloat(v any) (float64, bool) {
 // their values, they compare on an equal footing.
 // This function can never fail, so it's not named "tryConvert" like the others.
 func convertToString(v any) string {
+	// A whole number must read the same whether it arrived as an integer or as a
+	// float64 (every JSON number does): %v alone prints float64(1000000) as "1e+06".
+	if f, ok := v.(float64); ok && f == math.Trunc(f) && math.Abs(f) < 1<<63 {
+		return strconv.FormatInt(int64(f), 10)
+	}
 	return fmt.Sprintf("%v", v)
 }
 
